@@ -35,6 +35,6 @@ CONFIG = {
         "stall = the scripted plugin's write to its stdout/stderr pipe has not completed after 5 s (in-memory pipe: every byte must be read)",
     ],
     "timeout": {"quick": 900, "thorough": 3000},
-    "level_text": "Lean theorems over executable models of the host's stderr loop (Model/LogLine.lean: exact bufio.Reader.ReadLine for any buffer size, continuation handling, level inference, panic-trace state, parseJSON over an external JSON view) and of the post-handshake stdout consumer (Model/Scanner.lean): for ALL byte sequences and ALL buffer sizes, the bytes given to the Stderr writer are the input with every line terminator (\\n or \\r\\n) replaced by \\n, in order, plus a precisely characterised final newline (stderr_copy_exact, final_newline_*), a line shorter than the buffer yields exactly one record at the level of its [LEVEL] prefix / hclog @level / panic-trace state (short_line_record, text_level_table), longer lines are emitted as consecutive debug chunks whose concatenation is the line (long_line_chunks), no stderr input panics (stderr_no_panic) and every post-handshake stdout byte is consumed (stdout_always_drained); witness theorems reproduce the former defects D6 ({\"@message\": 5} panics) and D7 (a >= 64 KiB stdout line is never consumed) when the corresponding fact is false. Facts (checked type assertions in parseJSON, drain after scanner error, linesCh received for ever) re-extracted each run; ~8600 cases per run through a real Client with a scripted runner (captured Stderr bytes and log records), plus the ReadLine and Scanner models diffed against the real bufio. Also: whatever writes of the configured Stderr writer fail, every line is taken from the pipe (stderr_taken_all; fact: logStderr leaves its loop only on a read error; witness); writers that fail always / once / short are run against 256 KiB of stderr. Fifth round: the plugin's last words — fact waitedBeforeProcWait (the stderr reader is in pipesWaitGroup, so runner.Wait closes the pipe only after the reader reached its end; stderr_taken_after_exit, pipe_closed_early_witness) and C10.lastwords (a real plugin writes 1500 lines and exits, slow sink, both launch methods). Sixth round: hclog JSON lines with null- and zero-valued top-level fields (every field reaches the record).",
+    "level_text": "Lean theorems over executable models of the host's stderr loop (Model/LogLine.lean: exact bufio.Reader.ReadLine for any buffer size, continuation handling, level inference, panic-trace state, parseJSON over an external JSON view) and of the post-handshake stdout consumer (Model/Scanner.lean): for ALL byte sequences and ALL buffer sizes, the bytes given to the Stderr writer are the input with every line terminator (\\n or \\r\\n) replaced by \\n, in order, plus a precisely characterised final newline (stderr_copy_exact, final_newline_*), a line shorter than the buffer yields exactly one record at the level of its [LEVEL] prefix / hclog @level / panic-trace state (short_line_record, text_level_table), longer lines are emitted as consecutive debug chunks whose concatenation is the line (long_line_chunks), no stderr input panics (stderr_no_panic) and every post-handshake stdout byte is consumed (stdout_always_drained); witness theorems reproduce the former defects D6 ({\"@message\": 5} panics) and D7 (a >= 64 KiB stdout line is never consumed) when the corresponding fact is false. Facts (checked type assertions in parseJSON, drain after scanner error, linesCh received for ever) re-extracted each run; ~8600 cases per run through a real Client with a scripted runner (captured Stderr bytes and log records), plus the ReadLine and Scanner models diffed against the real bufio. Also: whatever writes of the configured Stderr writer fail, every line is taken from the pipe (stderr_taken_all; fact: logStderr leaves its loop only on a read error; witness); writers that fail always / once / short are run against 256 KiB of stderr. Fifth round: the plugin's last words — fact waitedBeforeProcWait (the stderr reader is in pipesWaitGroup, so runner.Wait closes the pipe only after the reader reached its end; stderr_taken_after_exit, pipe_closed_early_witness) and C10.lastwords (a real plugin writes 1500 lines and exits, slow sink, both launch methods). Sixth round: hclog JSON lines with null- and zero-valued top-level fields (every field reaches the record). Eighth round: a rejected first stdout line followed by more lines is still consumed (C10.rejected-line-then-more: Kill returns).",
     "level_note": "Full strength for bytes and levels. encoding/json and time.Parse enter as an external view computed by the harness with the real library; hclog.LevelFromString is modelled (trim + lower-case table). Inputs the model predicts to panic are only run through the exported parseJSON under recover (a panic on go-plugin's stderr goroutine cannot be recovered by the harness).",
 }
